@@ -1,5 +1,7 @@
 import PynetVerif.Model.Framing
 import PynetVerif.Lemmas.Framing
+import PynetVerif.Model.Idle
+import PynetVerif.Gen.Timeouts
 /-!
 C03 — PDU framing is independent of how TCP splits the byte stream.
 
@@ -161,5 +163,33 @@ example : WellFramed (5, 0, [0, 0, 0, 0]) ∧ WellFramed (4, 0, [1, 2, 3]) ∧
 
 example : frames 5 (wire [(5, 0, [0, 0, 0, 0]), (4, 0, [1, 2, 3])] ++ [7, 0]) [.got 0, .got 0, .got 2] =
     [.pdu (wirePdu (5, 0, [0, 0, 0, 0])), .pdu (wirePdu (4, 0, [1, 2, 3])), .closed] := by decide
+
+/-! ### gaps between chunks and the network-idle timer -/
+
+/-- **Every gap below the network timeout is enough**: when the idle timer is restarted for every
+chunk received, a PDU sequence cut into chunks in any way, with every inter-chunk gap at most the
+network timeout, is never aborted as idle — however long a single PDU takes to arrive in full. -/
+theorem C03_gaps_below_timeout (T : Nat) : ∀ (chunks : List (Nat × Bool)), (∀ c ∈ chunks, c.1 ≤ T) →
+    Idle.aborted .perChunk T 0 chunks = false := by
+  intro chunks
+  induction chunks with
+  | nil => intro _; rfl
+  | cons c rest ih =>
+    intro h
+    obtain ⟨gap, last⟩ := c
+    have hg : gap ≤ T := h (gap, last) (List.mem_cons_self ..)
+    have : ¬ (0 + gap > T) := by omega
+    simp only [Idle.aborted, this, ↓reduceIte, Bool.or_true, beq_self_eq_true]
+    exact ih (fun c hc => h c (List.mem_cons_of_mem _ hc))
+
+/-- the repaired defect, for the record: with a restart per completed PDU only, a PDU arriving in
+three chunks 0.7 T apart (every gap below the timeout) is aborted as idle -/
+theorem C03_restart_per_pdu_neg :
+    Idle.aborted .perPdu 10 0 [(0, false), (7, false), (7, true)] = true ∧
+    Idle.aborted .perChunk 10 0 [(0, false), (7, false), (7, true)] = false := by decide
+
+/-- the source restarts the idle timer for every chunk `AssociationSocket.recv` receives
+(regenerated from transport.py on every run) -/
+theorem C03_code_restarts_per_chunk : Gen.Timeouts.idleRestartPerChunk = true := by decide
 
 end PynetVerif
